@@ -484,6 +484,6 @@ func ruleOwnership(c *Ctx, rule string) {
 				}
 			}
 		}
-		r.Check(bad == "" && n > 0, rule, name+" reflective writes", c.Pos(fn.Pos()), fmt.Sprintf("%d reflective field writes, all on objects created by reflect.New in the same invocation", n), orStr(bad, "no reflective field write found"))
+		r.Check(bad == "", rule, name+" reflective writes", c.Pos(fn.Pos()), fmt.Sprintf("%d reflective field writes, all on objects created by reflect.New in the same invocation", n), bad)
 	}
 }
